@@ -297,3 +297,134 @@ fn c13_vacuity_twin() {
     kani::assume(p <= max_p);
     assert!(false);
 }
+
+// ======================================================================== L7: the search loop, C10: finder reuse
+static mut STUB_TABLES: [[u32; 16]; 2] = [[0; 16]; 2];
+static mut STUB_CALLS: usize = 0;
+fn from_errors_stub(_errors: &[u32], _offset: usize) -> PrcBitTable {
+    unsafe {
+        let k = STUB_CALLS;
+        STUB_CALLS += 1;
+        PrcBitTable { p_to_bits: simd::u32x16::from_array(STUB_TABLES[k % 2]) }
+    }
+}
+
+fn min_lane(t: &[u64; 16], max_p: usize) -> u64 {
+    let mut best = u64::MAX;
+    let mut p = 0;
+    while p < 15 {
+        if p <= max_p && t[p] < best { best = t[p]; }
+        p += 1;
+    }
+    best
+}
+fn sat_merge(a: &[u64; 16], b: &[u64; 16]) -> [u64; 16] {
+    let mut o = [0u64; 16];
+    let mut p = 0;
+    while p < 16 {
+        let s = a[p] + b[p] - 4;
+        o[p] = if s < SAT { s } else { SAT };
+        p += 1;
+    }
+    o
+}
+
+//@ prop: C13
+//@ drives: PrcParameterFinder::find (search over partition orders), eval_partitions, merge_partitions, finest_partition_order, PrcBitTable::{minimizer, merge}
+//@ bound: a 128-sample block (finest order 1: 2 partitions of 64) with warm-up 0; the two per-partition cost tables are ARBITRARY (every lane in 4..=2^28-1), every max parameter 0..=14
+//@ asserts: the returned code_bits is the minimum over orders 1 and 0 of the sum of per-partition minima of the (saturating-)merged tables; the returned order attains it; exactly 2^order parameters are returned, each admissible and attaining its partition's minimum
+//@ stubs: PrcBitTable::from_errors -> the arbitrary tables (its contract is c13_l1_*); the sample values are then irrelevant (zeros)
+#[kani::proof]
+#[kani::unwind(132)]
+#[kani::stub(super::PrcBitTable::from_errors, from_errors_stub)]
+fn c13_l7_find_searches_all_orders() {
+    let mut raw = [[0u64; 16]; 2];
+    let mut k = 0;
+    while k < 2 {
+        let t = any_table();
+        let mut p = 0;
+        while p < 16 {
+            raw[k][p] = t.p_to_bits[p] as u64;
+            unsafe { STUB_TABLES[k][p] = t.p_to_bits[p]; }
+            p += 1;
+        }
+        k += 1;
+    }
+    unsafe { STUB_CALLS = 0; }
+    let max_p: usize = kani::any();
+    kani::assume(max_p <= 14);
+    let signal = [0i32; 128];
+    let mut finder = PrcParameterFinder::default();
+    let r = finder.find(&signal, 0, max_p);
+    assert!(unsafe { STUB_CALLS } == 2);
+    let o1 = min_lane(&raw[0], max_p) + min_lane(&raw[1], max_p);
+    let m = sat_merge(&raw[0], &raw[1]);
+    let o0 = min_lane(&m, max_p);
+    let best = if o1 <= o0 { o1 } else { o0 };
+    assert!(r.code_bits as u64 == best);
+    assert!(r.order <= 1 && r.ps.len() == 1usize << r.order);
+    let attained = if r.order == 1 { o1 } else { o0 };
+    assert!(attained == best);
+    let mut i = 0;
+    while i < 2 {
+        if i < r.ps.len() {
+            let p = r.ps[i] as usize;
+            assert!(p <= max_p);
+            let (lane, want) = if r.order == 1 { (raw[i][p], min_lane(&raw[i], max_p)) } else { (m[p], min_lane(&m, max_p)) };
+            assert!(lane == want);
+        }
+        i += 1;
+    }
+    kani::cover!(r.order == 1);
+    kani::cover!(r.order == 0);
+    std::mem::forget(r);
+    std::mem::forget(finder);
+}
+
+//@ prop: C10
+//@ drives: PrcParameterFinder::find on a reused finder (PRC_FINDER scratch state: errors, tables, ps, min_ps)
+//@ bound: a 128-sample block (2 partitions) of a fixed ramp signal, warm-up 2, max parameter 14; the finder holds arbitrary previous state: vectors of length 0, 3 or 9 with arbitrary content (what a previous call with other sizes leaves)
+//@ asserts: order, parameters and code_bits equal those of a fresh finder (the result depends on the arguments only)
+#[kani::proof]
+#[kani::unwind(140)]
+fn c10_prc_finder_reuse() {
+    let mut signal = [0i32; 128];
+    let mut i = 0;
+    while i < 128 {
+        signal[i] = (i as i32 * 37) % 101 - 50;
+        i += 1;
+    }
+    let mut fresh = PrcParameterFinder::default();
+    let want = fresh.find(&signal, 2, 14);
+    fn dirty<const L: usize>() -> PrcParameterFinder {
+        let e: [u32; L] = kani::any();
+        let p: [usize; L] = kani::any();
+        let q: [usize; L] = kani::any();
+        let mut f = PrcParameterFinder::default();
+        let mut i = 0;
+        while i < L {
+            f.errors.push(e[i]);
+            f.ps.push(p[i]);
+            f.min_ps.push(q[i]);
+            f.tables.push(any_table());
+            i += 1;
+        }
+        f
+    }
+    let sel: u8 = kani::any();
+    let mut used = if sel == 0 { dirty::<0>() } else if sel == 1 { dirty::<3>() } else { dirty::<9>() };
+    let got = used.find(&signal, 2, 14);
+    assert!(got.order == want.order && got.code_bits == want.code_bits && got.ps.len() == want.ps.len());
+    let mut i = 0;
+    while i < 2 {
+        if i < want.ps.len() {
+            assert!(got.ps[i] == want.ps[i]);
+        }
+        i += 1;
+    }
+    kani::cover!(sel == 2);
+    std::mem::forget(got);
+    std::mem::forget(want);
+    std::mem::forget(used);
+    std::mem::forget(fresh);
+}
